@@ -420,6 +420,7 @@ type State struct {
 	FreshRefs map[string]bool
 	FreshTypes map[string]*types.Named // struct type of fresh references (for object invariants)
 	Escaped   []escapedRef // objects handed to code outside the function through a channel: their receiver may edit them at any time
+	TokenSubject map[string]*Term // WaitGroup (term key) -> subject the token this goroutine holds is bound to
 	Lent      []string // locks lent to goroutines this function started (ghost borrows)
 	Owned     []*Term // channels this goroutine alone may close (ghost owns): exempt from interference, also after being shared
 	Panicking bool
@@ -468,6 +469,7 @@ func (s *State) Clone() *State {
 		FreshTypes: s.FreshTypes,
 		Owned:     s.Owned,
 		Lent:      s.Lent,
+		TokenSubject: s.TokenSubject,
 		Escaped:   s.Escaped,
 		LiveIters: s.LiveIters[:len(s.LiveIters):len(s.LiveIters)],
 	}
